@@ -110,11 +110,12 @@ def build_maze(case):
     from maze_dataset.maze import LatticeMaze, SolvedMaze, TargetedLatticeMaze
 
     conn = np.array(case["conn"], dtype=np.bool_)
+    dt = np.int8 if case.get("coord_dtype") == "int8" else None  # int8 is the dtype of coordinates loaded back from the compact storage format
     if case["kind"] == "lattice":
         return LatticeMaze(connection_list=conn)
     if case["kind"] == "targeted":
-        return TargetedLatticeMaze(connection_list=conn, start_pos=np.array(case["start"]), end_pos=np.array(case["end"]))
-    return SolvedMaze(connection_list=conn, solution=np.array(case["solution"]))
+        return TargetedLatticeMaze(connection_list=conn, start_pos=np.array(case["start"], dtype=dt), end_pos=np.array(case["end"], dtype=dt))
+    return SolvedMaze(connection_list=conn, solution=np.array(case["solution"], dtype=dt))
 
 
 # ----------------------------------------------------------------------------- the oracle
@@ -168,7 +169,7 @@ def check_case(res, case):
     conn = np.array(case["conn"], dtype=np.bool_)
     R, C = conn.shape[1:]
     ul, kind = int(case["ul"]), case["kind"]
-    inp = {k: case[k] for k in ("kind", "conn", "ul", "node_values", "start", "end", "solution", "true_path", "pred")}
+    inp = {k: case.get(k) for k in ("kind", "conn", "ul", "node_values", "start", "end", "solution", "true_path", "pred", "coord_dtype")}
     res.seen((kind, R, C, conn.tobytes(), ul, case["node_values"], repr(case["start"]), repr(case["end"]), repr(case["true_path"]), repr(case["pred"])), nontrivial=bool(conn.any()), sample={"kind": kind, "shape": [R, C], "ul": ul, "node_values": case["node_values"], "conn": conn.astype(int).tolist()})
     maze = build_maze(case)
     nv = (np.arange(R * C, dtype=float).reshape(R, C) + 1) if case["node_values"] else None
@@ -190,10 +191,10 @@ def check_case(res, case):
                 res.fail("C20:true-path:targeted", f"the true path of a plotted TargetedLatticeMaze is not a shortest path from {a} to {b}", inp, got)
             expected_true = None if got is None else [list(c) for c in got]
         if case["true_path"] is not None:
-            mp.add_true_path(np.array(case["true_path"]))
+            mp.add_true_path(np.array(case["true_path"], dtype=np.int8 if case.get("coord_dtype") == "int8" else None))
             expected_true = [list(c) for c in case["true_path"]]
         for cells, arrows, as_list in case["pred"]:
-            arg = [tuple(c) for c in cells] if as_list else np.array(cells)
+            arg = [tuple(c) for c in cells] if as_list else np.array(cells, dtype=np.int8 if case.get("coord_dtype") == "int8" else None)
             if arrows:
                 mp.add_predicted_path(arg)
             else:
@@ -312,6 +313,11 @@ def cases_for(tier, seed):
                 base = make_case(rng, kind, R, C, True, int(rng.choice(UNIT_LENGTHS)), bool(rng.random() < 0.5), disconnected=True)
                 cases.append(base)
                 cases.append({**base, "ascii_only": True})
+    # coordinates stored as int8 (what a dataset loaded from the compact format holds) on a grid whose pixel positions exceed 127
+    for kind in KINDS:
+        for R, C in ((12, 12), (11, 13)):
+            base = make_case(rng, kind, R, C, False, 14, False)
+            cases.append({**base, "coord_dtype": "int8"})
     return cases
 
 
